@@ -52,7 +52,7 @@ const TOL_BD: f64 = 1e-7; // bubble/dew: ||(dmu, dp)|| < 1e-10 (Newton) in reduc
 const TOL_FLASH: f64 = 1e-6; // tp_flash: ||ln K update|| < 1e-8; plus 1e-8 / (relative width of the envelope), see flash_tol
 const TOL_CRIT: f64 = 1e-6; // critical points: the Newton iteration stops at |step| < 1e-8 (reduced T, rho); the conditions are degenerate in rho
 /// bubble/dew points under caller-supplied options: the OUTER tolerance (default 1e-10) decides about acceptance
-const BD_OPT_FACTOR: f64 = 300.0;
+const BD_OPT_FACTOR: f64 = 1000.0;
 const TOL_STATE: f64 = 1e-8; // density iteration (relative 1e-10..1e-12) and Newton on T (|dT| < 1e-8 K) incl. the inner density iteration; worst observed 5.8e-10
 
 fn err_kind(e: &EosError) -> String {
@@ -419,7 +419,7 @@ fn pure_systems(full: bool) -> Vec<Sys> {
     let extra: &[&str] = if full {
         &["methane", "hexane", "decane", "benzene", "toluene", "cyclohexane", "eicosane", "ethylene", "isobutane"]
     } else {
-        &["hexane", "benzene"]
+        &["hexane", "benzene", "eicosane"]
     };
     for n in extra {
         let eos = pcsaft(&[n]);
@@ -880,6 +880,8 @@ fn diagram_vs_standalone_pure(sys: &Sys, case: &TieCase, dia: &PhaseDiagram<Eos,
         let in_dia = dia.states.iter().find(|s| !is_crit(s) && s.vapor().temperature.to_reduced().to_bits() == t.to_bits());
         let key = json!({"system": sys.name, "driver": "PhaseDiagram::pure", "T_min": case.info["T_min"], "npoints": case.info["npoints"], "point": k, "T": t});
         match (in_dia, &alone) {
+            // numerical comparison inside the property's window T >= 0.45 T_c only (the cold diagrams exist for their failure patterns)
+            (Some(_), _) if t < 0.45 * sys.tc[0] => {}
             (Some(s), _) => st.cmp("diagram state vs stand-alone PhaseEquilibrium::pure(T, None)", key, &Ok(vle_vec(s)), &vv(&alone), TOL_PURE),
             (None, Ok(a)) => missing.push(json!({"key": key, "stand_alone": vle_vec(a),
                 "broken": "the diagram lacks a point whose stand-alone calculation converges (pure_t has a guess-free fallback: diagram_complete)"})),
@@ -1253,6 +1255,19 @@ fn main() {
                     let flash = |t: f64, p: f64, init: Option<&Vle>| {
                         guard(|| PhaseEquilibrium::tp_flash(&sys.eos, Temperature::from_reduced(t), Pressure::from_reduced(p), &feed, init, SolverOptions::default(), None))
                     };
+                    // the same with the heavier component declared non-volatile (an option of the flash): the previous
+                    // equilibrium of a continuation in pressure is the guess
+                    {
+                        let heavy = if sys.tc[0] > sys.tc[1] { 0usize } else { 1 };
+                        let nv_flash = |p: f64, init: Option<&Vle>| {
+                            guard(|| PhaseEquilibrium::tp_flash(&sys.eos, Temperature::from_reduced(t), Pressure::from_reduced(p), &feed, init, SolverOptions::default(), Some(vec![heavy])))
+                        };
+                        let nv_alone = nv_flash(p, None);
+                        if let Ok(g) = nv_flash(pg, None) {
+                            let with = nv_flash(p, Some(&g));
+                            st.cmp("tp_flash(T, p, feed, Some(flash at p_g), non_volatile_components = [heavy])", json!({"system": sys.name, "T": t, "p": p, "z1": z1, "p_guess": pg, "non_volatile": heavy}), &vv(&with), &vv(&nv_alone), flash_tol(pb, pd));
+                        }
+                    }
                     let alone = flash(t, p, None);
                     if let Ok(g) = flash(tg, pg, None) {
                         verif_trace_start();
@@ -1528,7 +1543,7 @@ fn main() {
             "both_failed": st.both_fail, "worst_rel_diff_within_tol": st.worst,
             "by_kind": st.by_kind.iter().map(|(k, v)| json!({"what": k, "comparisons": v.0, "both_converged": v.1, "worst_rel_diff": v.2})).collect::<Vec<_>>(), "failures": st.failures, "notes": st.notes, "samples": st.samples,
             "missing_points": missing, "dropped_points_no_fallback_by_design": dropped, "grid_comparisons": grid_cmp,
-            "tolerances": {"pure": TOL_PURE, "bubble_dew": TOL_BD, "tp_flash": TOL_FLASH, "state": TOL_STATE, "critical_point": TOL_CRIT, "bubble_dew_with_options": "300 x outer tolerance"},
+            "tolerances": {"pure": TOL_PURE, "bubble_dew": TOL_BD, "tp_flash": TOL_FLASH, "state": TOL_STATE, "critical_point": TOL_CRIT, "bubble_dew_with_options": "1000 x outer tolerance"},
             "systems": {"pure": pures.iter().map(|s| s.name.clone()).collect::<Vec<_>>(), "binary": bins.iter().map(|s| s.name.clone()).collect::<Vec<_>>(),
                 "critical_point_extra": vrmie.iter().map(|s| s.name.clone()).collect::<Vec<_>>(), "wide_boiling": wides.iter().map(|s| s.name.clone()).collect::<Vec<_>>()},
         },
